@@ -90,10 +90,10 @@ var expireCmds = map[string]bool{"expire": true, "hexpire": true, "lexpire": tru
 // list errors) gets one signature.
 func (r *runner) genCollision(o Op) string {
 	typ := typeOf(o.Name)
-	if typ == "kv" || !IsWrite(o.Name) || r.cfg.Policy == PolicyLocal {
+	if typ == "kv" || r.cfg.Policy == PolicyLocal {
 		return ""
 	}
-	if r.m.GenCollision(typ, o.tk(), o.Ts) {
+	if r.m.GenCollision(typ, o.tk()) {
 		return "predecessor-members-visible/" + typ + "/same-ns"
 	}
 	return ""
